@@ -1817,6 +1817,8 @@ class Gen:
             if len(tids) >= 3:
                 ids = tids
                 self.rng2.shuffle(ids)
+                if v == 'id':            # (the single-id spelling cannot name several tasks)
+                    v = None
         if getattr(self, 'raise_filters', False) and ids and self.rng2.random() < 0.7:
             # histories of their own (seeds 'rf-...'): the caller's filter raises after its first match - the call is
             # rejected and nothing may have been removed
